@@ -123,6 +123,52 @@ fn probe(a: &[String]) {
   let t0 = Instant::now();
   let rd = |p: &str| std::fs::read_to_string(p).expect("read");
   match a[0].as_str() {
+    "refac" => {
+      let t = rd(&a[1]);
+      let g = vh::fromast::gs_of_text(&t).expect("not convertible");
+      for kind in vh::refac::KINDS {
+        for k in 0..4 {
+          match vh::refac::apply(kind, &g, k) {
+            Some(x) if x != g => println!("{} k={} wellformed={}\n{}", kind, k, vh::gs::wellformed(&x), vh::gs::print_plain(&x)),
+            _ => println!("{} k={} not applicable", kind, k),
+          }
+        }
+      }
+      return;
+    }
+    "docs" => {
+      // documents the witness generator produces for a schema, with model and implementation verdicts
+      let t = rd(&a[1]);
+      let g = vh::fromast::gs_of_text(&t).expect("not convertible");
+      let mut rng = vh::rng::Rng::new(a.get(2).and_then(|x| x.parse().ok()).unwrap_or(1));
+      for (v, o) in vh::props::c01::gen_docs(&g, &mut rng, true, 12) {
+        println!("{:10} model={:8} json={:?} cbor={:?}  {}", o, vh::vcore::model(&g, &v, true).name(), vh::vcore::impl_json(&t, &v), vh::vcore::impl_cbor(&t, &v), v.to_json());
+      }
+      return;
+    }
+    "corpus" => {
+      // how much of the seed corpus survives text -> tree conversion, and yields documents
+      let mut n = 0;
+      let mut ok = 0;
+      let mut with_docs = 0;
+      for s in vh::corpus::schemas() {
+        n += 1;
+        if let Some(g) = vh::fromast::gs_of_text(s) {
+          ok += 1;
+          let mut rng = vh::rng::Rng::new(1);
+          let docs = vh::props::c01::gen_docs(&g, &mut rng, true, 6);
+          let acc = docs.iter().filter(|(v, _)| vh::vcore::impl_json(s, v) == Some(true)).count();
+          if acc > 0 {
+            with_docs += 1;
+          }
+          println!("ok rules={} docs={} accepted={} | {}", g.rules.len(), docs.len(), acc, s.lines().next().unwrap_or(""));
+        } else {
+          println!("-- not converted | {}", s.lines().next().unwrap_or(""));
+        }
+      }
+      println!("corpus {} converted {} with accepted documents {}", n, ok, with_docs);
+      return;
+    }
     "c17gen" => {
       vh::props::c17::probe_gen(&a[1]);
       return;
